@@ -106,7 +106,7 @@ inline FitProblem gen_fit_problem(Chooser& ch, const FitGenOpts& fo) {
     size_t r = g;
     for (uint32_t d = p.ndim; d-- > 0;) { I[d] = (unsigned)(r % p.coords[d].size()); r /= p.coords[d].size(); }
     uint64_t h = mix64(salt ^ mix64(g));
-    if (sparse && (h % 10) < 3) continue;  // missing cell
+    if (sparse && (h % 10) < 3 && !(g + 1 == ngrid && p.y.empty())) continue;  // missing cell (but never an empty data set)
     double s = 0;
     for (uint32_t d = 0; d < p.ndim; d++) s += (p.coords[d][I[d]] - p.knots[d].front()) / (p.knots[d].back() - p.knots[d].front()) * (d + 1);
     double v;
